@@ -52,6 +52,11 @@ func c03Range(ds string, k int) (float64, float64) {
 
 // a limit for variable k that is attainable at the optimiser's starting extreme, at the given fraction of the range
 func c03Limit(ds string, k int, frac float64) float64 {
+	if frac == 0 && k >= 4 {
+		// the smallest legal limit, exactly attained by the cost-limit starting extreme (nothing active): "only actions that
+		// cost nothing"; every other state is at least a cent away, so the comparison with it is exact in float64 too
+		return 0
+	}
 	asIs, allActive := c03Range(ds, k)
 	var start, other float64
 	if k >= 4 { // cost: starts with nothing active (0), grows with activation
@@ -118,6 +123,10 @@ func c03OnDataset(ds string, p *prng, stats map[string]int, failsp *int, loopCas
 	for lc := 0; lc < loopCases; lc++ {
 		k := lc % 6
 		frac := []float64{0.05, 0.3, 0.6, 0.95, 1.5}[p.intn(5)]
+		if k >= 4 && lc%5 == 4 {
+			frac = 0
+			stats["loop:cost-limit-exactly-zero"]++
+		}
 		limit := c03Limit(ds, k, frac)
 		prm := parameters.Map{catchLimitKeys[k]: limit}
 		c := catchOpen(txPath(ds), prm)
@@ -192,6 +201,10 @@ func c03OnDataset(ds string, p *prng, stats map[string]int, failsp *int, loopCas
 		k := r % 6
 		family := []string{"kirkpatrick", "suppapitnarm"}[(r/6+r)%2]
 		frac := []float64{0.1, 0.5, 0.9}[p.intn(3)]
+		if k >= 4 && (r/6)%2 == 1 {
+			frac = 0
+			stats["run:cost-limit-exactly-zero"]++
+		}
 		limit := c03Limit(ds, k, frac)
 		prm := parameters.Map{catchLimitKeys[k]: limit}
 		var trace []J
